@@ -150,15 +150,36 @@ def grep_escape_hatches() -> list[str]:
   return hits
 
 
-def audit(prop: str) -> dict:
-  """build the proofs of `prop` and list every theorem of QKV.Props.<prop> with its axioms.
+def leanchecker(prop: str, modules=None) -> dict:
+  """thorough tier: independent re-check of the compiled proofs (all QKV modules the property
+  theorems depend on) with the toolchain's `leanchecker`"""
+  mods = list(modules or ["QKV.Props." + prop])
+  for sub in ("Lemmas", "Model"):
+    d = os.path.join(LEAN_DIR, "QKV", sub)
+    if os.path.isdir(d):
+      mods += ["QKV.%s.%s" % (sub, f[:-5]) for f in sorted(os.listdir(d)) if f.endswith(".lean")]
+  # only modules that are built (dependencies of this property's Props module were built by audit)
+  built = []
+  for m in mods:
+    path = os.path.join(LEAN_DIR, ".lake", "build", "lib", "lean", *m.split(".")) + ".olean"
+    if os.path.exists(path):
+      built.append(m)
+  t0 = time.time()
+  p = subprocess.run(["lake", "env", "leanchecker"] + built, cwd=LEAN_DIR, capture_output=True, text=True)
+  return {"ok": p.returncode == 0, "modules": len(built), "wall_s": round(time.time() - t0, 1),
+          "log": (p.stdout + p.stderr)[-1500:] if p.returncode != 0 else ""}
+
+
+def audit(prop: str, modules=None, prefixes=None) -> dict:
+  """build the proofs of `prop` and list every theorem of its Props module(s) with its axioms.
 
   Returns {ok, obligations:[{name, axioms, ok}], build_log, escapes}."""
-  mod = "QKV.Props." + prop
-  ok, log = lake_build([mod])
-  res = {"module": mod, "build_ok": ok, "build_log": log[-4000:] if not ok else "", "obligations": [],
-         "escapes": grep_escape_hatches()}
-  if ok:
+  modules = modules or ["QKV.Props." + prop]
+  prefixes = tuple(prefixes or [prop + "_"])
+  ok, log = lake_build(modules)
+  res = {"module": ",".join(modules), "build_ok": ok, "build_log": log[-4000:] if not ok else "",
+         "obligations": [], "escapes": grep_escape_hatches()}
+  for mod in modules if ok else []:
     p = subprocess.run(["lake", "env", "lean", "--run", "drivers/Audit.lean", mod], cwd=LEAN_DIR,
                        capture_output=True, text=True)
     if p.returncode != 0:
@@ -172,7 +193,7 @@ def audit(prop: str) -> dict:
         o = json.loads(line)
         # property theorems are named <prop>_...; structure projections / private helpers of the
         # Props file are not obligations themselves (their axioms surface in the theorems using them)
-        if not o["name"].split(".")[-1].startswith(prop + "_"):
+        if not o["name"].split(".")[-1].startswith(prefixes):
           continue
         o["ok"] = set(o["axioms"]) <= ALLOWED_AXIOMS
         res["obligations"].append(o)
@@ -217,6 +238,9 @@ class Run:
   def __init__(self, prop: str, tier: str):
     self.prop = prop
     self.tier = tier
+    # a child pass (thorough tier re-run under the pinned Keras 3) writes its own files
+    self.tag = os.environ.get("QKV_CHILD_TAG", "")
+    self.fileid = prop + self.tag
     self.seed = seed()
     self.t0 = time.time()
     self.evaluations = 0
@@ -236,7 +260,7 @@ class Run:
     rdir = os.path.join(VERIF, "replays")
     if os.path.isdir(rdir):
       for f in os.listdir(rdir):
-        if f.startswith(prop + "-"):
+        if f.startswith(self.fileid + "-"):
           try:
             os.remove(os.path.join(rdir, f))
           except OSError:
@@ -297,7 +321,7 @@ class Run:
       groups.setdefault(json.dumps(v["key"], sort_keys=True), []).append(v)
     n_viol = 0
     for i, (gk, vs) in enumerate(sorted(groups.items())):
-      path = os.path.join("replays", "%s-%d-%d.json" % (self.prop, self.seed, i))
+      path = os.path.join("replays", "%s-%d-%d.json" % (self.fileid, self.seed, i))
       with open(os.path.join(VERIF, path), "w") as fh:
         json.dump({"property": self.prop, "kind": "clause-failure-on-implementation",
                    "key": vs[0]["key"], "cases": [v["detail"] for v in vs[:5]], "n_cases": len(vs),
@@ -320,7 +344,7 @@ class Run:
         broken.append({"what": "correspondence", "stream": s, "n": len(ds), "first": ds[:3]})
     if broken and n_viol == 0:
       # the property is no longer shown to hold, but no failing input was found
-      path = os.path.join("replays", "%s-%d-broken.json" % (self.prop, self.seed))
+      path = os.path.join("replays", "%s-%d-broken.json" % (self.fileid, self.seed))
       with open(os.path.join(VERIF, path), "w") as fh:
         json.dump({"property": self.prop, "kind": "no-failing-input-found", "broken": broken,
                    "note": "the listed theorem(s)/correspondence stream(s) no longer check; the clause "
@@ -332,15 +356,15 @@ class Run:
       exit_code = 1
     elif broken:
       # attach the broken obligations to the first replay for the record
-      with open(os.path.join(VERIF, "replays", "%s-%d-broken.json" % (self.prop, self.seed)), "w") as fh:
+      with open(os.path.join(VERIF, "replays", "%s-%d-broken.json" % (self.fileid, self.seed)), "w") as fh:
         json.dump({"property": self.prop, "kind": "broken-alongside-violation", "broken": broken}, fh,
                   indent=1, default=str)
     self._write_evidence(n_viol)
     for l in lines:
       print(l)
-    print("[%s %s seed=%d] evaluations=%d compared=%d distinct_nontrivial=%d obligations=%s "
+    print("[%s%s %s seed=%d] evaluations=%d compared=%d distinct_nontrivial=%d obligations=%s "
           "disagreements=%d violations=%d known=%d wall=%.1fs"
-          % (self.prop, self.tier, self.seed, self.evaluations, self.compared, len(self.nontrivial),
+          % (self.prop, self.tag, self.tier, self.seed, self.evaluations, self.compared, len(self.nontrivial),
              ("%d/%d" % (sum(o["ok"] for o in self.audit["obligations"]), len(self.audit["obligations"])))
              if self.audit else "-", len(self.disagreements), n_viol, len(self.known_seen),
              time.time() - self.t0))
@@ -352,8 +376,9 @@ class Run:
     cov = {
         "obligations": len(obl),
         "discharged": sum(1 for o in obl if o["ok"]) if (self.audit and self.audit["build_ok"] and not self.audit["escapes"]) else 0,
-        "checker_cmd": "cd lean && lake build QKV.Props.%s && lake env lean --run drivers/Audit.lean QKV.Props.%s"
-                       % (self.prop, self.prop),
+        "checker_cmd": "cd lean && lake build %s && for m in %s; do lake env lean --run drivers/Audit.lean $m; done"
+                       % ((self.audit or {}).get("module", "QKV.Props." + self.prop).replace(",", " "),
+                          (self.audit or {}).get("module", "QKV.Props." + self.prop).replace(",", " ")),
         "trusted_base": GLOBAL_TRUSTED_BASE + self.assumptions,
         "theorems": [{"name": o["name"], "axioms": o["axioms"]} for o in obl],
         "evaluations": self.evaluations,
@@ -370,5 +395,5 @@ class Run:
     ev = {"property_id": self.prop, "tier": self.tier, "seed": self.seed, "level": "proof",
           "coverage": cov, "assumptions": self.assumptions, "wall_s": round(time.time() - self.t0, 2),
           "violations": n_viol}
-    with open(os.path.join(VERIF, "evidence", self.prop + ".json"), "w") as fh:
+    with open(os.path.join(VERIF, "evidence", self.fileid + ".json"), "w") as fh:
       json.dump(ev, fh, indent=1, default=str)
